@@ -496,6 +496,11 @@ class Executor:
             if (isinstance(node, ast.Call) and isinstance(node.func, ast.Name) and node.func.id == "set"
                     and not node.args and isinstance(hint, TSet)):
                 return mk_set(hint, z3.K(sort_of(hint.k), z3.BoolVal(False)), z3.IntVal(0))
+        if (hint is not None and isinstance(hint, TTuple) and not isinstance(hint, TRec) and isinstance(node, ast.Tuple)
+                and len(node.elts) == len(hint.items)):
+            # a tuple literal whose items may be empty literals: (capacity, []) with the declared item types
+            items = [self.expr_typed(ev, e, it) for e, it in zip(node.elts, hint.items)]
+            return mk_tuple(hint, [coerce_to(v_, it).z for v_, it in zip(items, hint.items)])
         if hint is not None and isinstance(hint, TSet) and isinstance(node, ast.Set):
             elems = []
             for e in node.elts:  # {x} where x is Optional but known not None here
@@ -690,6 +695,14 @@ class Executor:
             elif isinstance(base.t, TMap):
                 k = coerce_to(ev2.expr(target.slice), base.t.k)
                 newv = V(base.t, z3.Store(base.z, k.z, coerce_to(v, base.t.v).z))
+            elif (isinstance(base.t, TTuple) and getattr(self, "_in_store_back", False) and isinstance(target.slice, ast.Constant)
+                  and isinstance(target.slice.value, int)):
+                # writing back a mutated item of a tuple (`bins[0][1].append(x)`: the list inside the tuple): the tuple value with
+                # that item replaced; only reached from an in-place mutation of the item, a plain `t[i] = v` raises TypeError in Python
+                i_ = target.slice.value % len(base.t.items)
+                items_ = [tuple_get(base, k_).z for k_ in range(len(base.t.items))]
+                items_[i_] = coerce_to(v, base.t.items[i_]).z
+                newv = mk_tuple(base.t, items_)
             else:
                 raise Unsupported(f"subscript store on {base.t}")
             self.assign(st, target.value, newv, ev)
